@@ -15,8 +15,8 @@ L_UNLOCK = {"myth_mutex_unlock_body": [dict(loop_id="0",
           invariants=AGREE + " && g_i_hold == 1 && g_seat == 0 && g_rel == 0 && g_take == 0 && g_clear == 0 && g_wake_calls == 0 && g_acq == 0 && g_ann_ever == 0 && g_block_ever == 0 && g_pending == 0",
           symbol_map="failed,myth_mutex_unlock_body::1::failed")]}
 L_TIMED = {"myth_mutex_timedlock_body": [dict(loop_id="0",
-          assigns="M.state, g_A, g_env_holds, g_i_hold, g_acq, g_clock_read_ever, g_now_s, g_now_ns, g_yield_ever, __CPROVER_object_whole(tp)",
-          invariants=AGREE + " && g_i_hold == 0 && g_acq == 0 && g_seat == 0 && g_pending == 0 && g_ann_ever == 0 && g_block_ever == 0 && 0 <= g_now_ns && g_now_ns <= 999999999",
+          assigns="M.state, g_A, g_env_holds, g_i_hold, g_acq, g_clock_read_ever, g_now_s, g_now_ns, g_yield_ever, g_try_since_clock, __CPROVER_object_whole(tp)",
+          invariants=AGREE + " && g_i_hold == 0 && g_acq == 0 && g_seat == 0 && g_pending == 0 && g_ann_ever == 0 && g_block_ever == 0 && 0 <= g_now_ns && g_now_ns <= 999999999 && g_try_since_clock == 1",
           symbol_map="tp,myth_mutex_timedlock_body::1::2::tp")]}
 ENV = ["myth_verif_env_step/myth_verif_env_step"]
 HOOK = [("state", "myth_verif_rd")]
